@@ -129,8 +129,7 @@ def tree_node_range(tree, i, parents=None):
     if parents is None:
         parents = tree_node_parents(tree)
     path = tree_find_path_to_root(tree, i, parents)
-    mx = max([tree.feature[p] for p in path])
-    res = numpy.full((mx + 1, 2), numpy.nan)
+    res = numpy.full((tree.n_features, 2), numpy.nan)
     for ind, p in enumerate(path):
         if p == i:
             break
